@@ -485,7 +485,7 @@ def ReadingOptions(reading_type) -> BaseAst:
         bases=[],
         body=[
             MemberDeclaration("double", symbol, 0.0)
-            for symbol in sorted(list(reading_type.sensor_model_mapping.keys()))
+            for symbol in sorted(list(reading_type.sensor_model_mapping.keys()), key=str)
         ],
     )
 
@@ -553,7 +553,7 @@ def Reading(generator, reading_type) -> BaseAst:
                 body=[Return(f"data({idx}, 0)")],
             )
             for idx, name in enumerate(
-                sorted(list(reading_type.sensor_model_mapping.keys()))
+                sorted(list(reading_type.sensor_model_mapping.keys()), key=str)
             )
         ]
         + [
@@ -760,7 +760,7 @@ def ReadingConstructor(reading_type) -> BaseAst:
                 "data",
                 ", ".join(
                     f"options.{name}"
-                    for name in sorted(list(reading_type.sensor_model_mapping.keys()))
+                    for name in sorted(list(reading_type.sensor_model_mapping.keys()), key=str)
                 ),
             )
         ],
